@@ -24,7 +24,8 @@ DECLS = {'integer': 'int', 'real': 'real', 'text': 'string', 'varchar': 'string'
 NAMES = ['c', 'Col x', 'sel"ect', 'select', 'ü', "it's", 'a-b', 'x]y', 'ba`ck', 'ORDER', 'q""q', '"', "'", 'a.b', 'n°', '%s',
          'tab\tbed', 'semi;colon', '--dash', 'min', 'type']
 TEXTS = ['a', 'b', 'abc', "it's", 'back\\slash', 'ünï', '', ' sp ', 'a"b', 'x%y', '日本', 'A1', 'b2', "''", 'line\nbreak', "'",
-         '"', "'; DROP TABLE t; --", '%s', '\\', "a'b'c", 'id-7', 'id-12', 'Zed', 'tab\t', '٣', ')', '( OR (', ' REGEXP ']
+         '"', "'; DROP TABLE t; --", '%s', '\\', "a'b'c", 'id-7', 'id-12', 'Zed', 'tab\t', '٣', ')', '( OR (', ' REGEXP ',
+         'C:\\data\\a1', 'C:\\data\\b2', 'x\\d', '\\d+', 'a\\db']
 DATES = ['2020-01-02 00:00:00', '1999-12-31 23:59:59', '2000-02-29 12:00:00', '1970-01-01 00:00:00', '2038-01-19 03:14:07',
          '2021-06-15 08:30:00']
 FMT = '%Y-%m-%d %H:%M:%S'
